@@ -24,7 +24,15 @@ func (w *World) key(v ssa.Value) string {
 		return k
 	}
 	w.keyMemo[v] = fmt.Sprintf("rec:%p", v) // cycle guard (phi loops)
+	w.keyDepth++
 	k := w.key1(v)
+	w.keyDepth--
+	if w.keyDepth > 0 && strings.Contains(k, "rec:") {
+		// computed inside another key's cycle: the marker stands for a value whose key is
+		// still being built; do not remember this partial spelling
+		delete(w.keyMemo, v)
+		return k
+	}
 	w.keyMemo[v] = k
 	return k
 }
@@ -439,7 +447,7 @@ func instrReaches(a, b ssa.Instruction) bool {
 		}
 	}
 	seen := map[*ssa.BasicBlock]bool{}
-	stack := append([]*ssa.BasicBlock{}, ba.Succs...)
+	stack := append([]*ssa.BasicBlock{}, liveSuccs(ba)...)
 	for len(stack) > 0 {
 		x := stack[len(stack)-1]
 		stack = stack[:len(stack)-1]
@@ -450,7 +458,7 @@ func instrReaches(a, b ssa.Instruction) bool {
 		if x == bb {
 			return true
 		}
-		stack = append(stack, x.Succs...)
+		stack = append(stack, liveSuccs(x)...)
 	}
 	return false
 }
@@ -695,7 +703,7 @@ func reachesAvoiding(from, to ssa.Instruction, avoid ssa.Instruction) bool {
 		return false // the rest of the starting block executes avoid
 	}
 	seen := map[*ssa.BasicBlock]bool{}
-	stack := append([]*ssa.BasicBlock{}, bf.Succs...)
+	stack := append([]*ssa.BasicBlock{}, liveSuccs(bf)...)
 	for len(stack) > 0 {
 		x := stack[len(stack)-1]
 		stack = stack[:len(stack)-1]
@@ -712,7 +720,7 @@ func reachesAvoiding(from, to ssa.Instruction, avoid ssa.Instruction) bool {
 		if x == ab {
 			continue // passing through this block executes avoid
 		}
-		stack = append(stack, x.Succs...)
+		stack = append(stack, liveSuccs(x)...)
 	}
 	return false
 }
